@@ -107,7 +107,7 @@ func runHostileMode() {
 		b := bases[r.Intn(len(bases))]
 		in := append([]byte(nil), b.stream...)
 		kind := ""
-		switch x := r.Intn(12); {
+		switch x := r.Intn(13); {
 		case x < 3:
 			kind = "flip-1"
 			k := r.Intn(len(in))
@@ -162,6 +162,42 @@ func runHostileMode() {
 				l = len(in) - a
 			}
 			in = append(append(append([]byte(nil), in[:a+l]...), in[a:a+l]...), in[a+l:]...)
+		case x == 12:
+			kind = "sibling-sizes"
+			// a well-formed header followed by an uncompressed frame whose column size table makes
+			// many columns each claim a size that fits the declared frame size on its own, but not
+			// jointly; (almost) no column data follows. Buffers are allocated while the table is
+			// parsed, so the shared remaining-frame budget is what bounds the allocation.
+			for tries := 0; b.ps.zstd && tries < 50; tries++ {
+				b = bases[r.Intn(len(bases))]
+			}
+			if b.ps.zstd {
+				kind = "sibling-sizes-skipped"
+				break
+			}
+			each := []uint64{1 << 20, 4 << 20, 16 << 20, 1<<26 - 4096, 1 << 26, 3 << 20}[r.Intn(6)]
+			declared := []uint64{1 << 26, 1 << 26, 1 << 25, 1<<26 + 1, 1 << 24}[r.Intn(5)]
+			ncols := 2 + r.Intn(700)
+			bw := pkg.NewBitsWriter(0)
+			for j := 0; j < ncols; j++ {
+				sz := each
+				if r.Chance(1, 8) {
+					sz = uint64(r.Intn(64))
+				}
+				bw.WriteUvarintCompact(sz)
+			}
+			bw.Close()
+			var content []byte
+			content = binary.AppendUvarint(content, uint64(1+r.Intn(3)))
+			content = binary.AppendUvarint(content, uint64(len(bw.Bytes())))
+			content = append(content, bw.Bytes()...)
+			for j := r.Intn(64); j > 0; j-- {
+				content = append(content, byte(r.U64()))
+			}
+			in = append([]byte(nil), b.stream[:b.ps.frames[0].end]...)
+			in = append(in, byte(r.Intn(8)))
+			in = binary.AppendUvarint(in, declared)
+			in = append(in, content...)
 		case x == 10:
 			kind = "arbitrary"
 			in = make([]byte, r.Intn(200))
